@@ -119,8 +119,11 @@ impl LyNative for AssertEq {
       return Call::Ok(VALUE_NIL);
     }
 
+    // the second str() may run user code and collect, nothing else holds the first string
     let arg0 = to_str(hooks, args[0]);
+    hooks.push_root(arg0);
     let arg1 = to_str(hooks, args[1]);
+    hooks.pop_roots(1);
 
     create_error!(
       self.error,
@@ -164,8 +167,11 @@ impl LyNative for AssertNe {
       return Call::Ok(VALUE_NIL);
     }
 
+    // the second str() may run user code and collect, nothing else holds the first string
     let arg0 = to_str(hooks, args[0]);
+    hooks.push_root(arg0);
     let arg1 = to_str(hooks, args[1]);
+    hooks.pop_roots(1);
 
     create_error!(
       self.error,
